@@ -25,12 +25,14 @@ from vlib.core import digest
 
 PROPERTY = "C10"
 LEVEL = "exploration"
-RULE = ("Documents = 15 feature shapes (plain scenarios, outlines with 0-2 examples blocks of 0-3 rows, rules with and "
-        "without background, empty rule, outline without examples, @setup/@teardown scenarios and outline) x 5 layouts "
+RULE = ("Documents = 19 feature shapes (plain scenarios, outlines with 0-2 examples blocks of 0-3 rows, rules with and "
+        "without background, empty rule, outline without examples, @setup/@teardown scenarios and outline; 4 shapes with DUPLICATE names: two scenarios 'Alpha', unnamed "
+        "'Scenario:' entries, two outlines generating identical row names, same-named rules and scenarios across "
+        "rules) x 5 layouts "
         "(tight / blank / comment / blank+comment+tab-indent / tags on two lines with trailing comment, comment between "
         "tag and keyword, blank lines between table rows) x 2 headers (none / language comment + two feature tag lines + "
-        "description): 12 of them (quick) / all 150 (thorough). Per document: every single line 0..last+3 and the bare "
-        "name; all multisets of 2 (quick: on 12 documents; thorough: on all, and all multisets of 3) over {bare, 0, entity lines, entity "
+        "description) = 190: 16 of them (quick) / all (thorough) for the multi-location sweeps. Per document: every single line 0..last+3 and the bare "
+        "name; all multisets of 2 (quick: on 16 documents; thorough: on all, and all multisets of 3) over {bare, 0, entity lines, entity "
         "lines +/-1}; two-file lists in grouped and interleaved order; the same through @listfile (other directory, "
         "relative entries, comments, blank lines, padding) and with absolute paths. Every selection is observed twice "
         "(should_skip after parse_features; executed step functions + status after a real run). A single location "
@@ -94,10 +96,15 @@ SHAPES = [
             R("Rule one", [S("Beta"), O("Other <a>", [B(1), B(1, "E2", ("e1",))]), S("Beta two", ("teardown",))],
               ("r1", "r2"), True),
             R("Rule two", [O("Last <a>", [B(2)])], (), False)]),
+    # --- duplicate names: scenarios are told apart by position/line only (all bookkeeping below keys on the line)
+    (False, [S("Alpha"), S("Beta"), S("Alpha"), S("Gamma ray")]),
+    (False, [S(""), S("", ("t1",)), S("Alpha"), S("")]),                       # unnamed 'Scenario:' entries
+    (False, [O("Out <a>", [B(2, "E1")]), S("Alpha"), O("Out <a>", [B(2, "E1"), B(1, "E1")])]),   # same generated names
+    (True, [S("Alpha"), R("Rule one", [S("Alpha"), S("Beta", ("setup",))]), R("Rule one", [S("Beta"), S("Alpha")])]),
 ]
 N_GAPS = 5
 N_HEADS = 2
-QUICK_DOCS = [(s, s % N_GAPS, s % N_HEADS) for s in (0, 1, 3, 4, 6, 7, 8, 9, 10, 11, 12, 14)]
+QUICK_DOCS = [(s, s % N_GAPS, s % N_HEADS) for s in (0, 1, 3, 4, 6, 7, 8, 9, 10, 11, 12, 14, 15, 16, 17, 18)]
 ALL_DOCS = [(s, g, h) for s in range(len(SHAPES)) for g in range(N_GAPS) for h in range(N_HEADS)]
 
 # layout table: pre = lines before an entity's tag block, mid = between tag line(s) and keyword,
@@ -620,7 +627,7 @@ def name_patterns(doc):
     pats = []
 
     def add(*p):
-        if list(p) not in pats:
+        if list(p) not in pats and all(p):        # an empty pattern is "no pattern" for argparse/behave
             pats.append(list(p))
     for n in names:
         add(n)
@@ -639,7 +646,7 @@ def name_patterns(doc):
         add("%s|%s" % (a, b))
         add("^%s$|^%s$" % (a, b))
         add(a, b)
-        add("^%s$" % a, b.split()[0])
+        add("^%s$" % a, (b.split() or [""])[0])
     add("Feature")
     add("Rule one")
     add("no such name")
@@ -881,7 +888,7 @@ def run(ctx):
     two_q = [two[3], two[5], two[11]]
     ctx.bounds = {"documents": len(ALL_DOCS), "single_lines": "0..last+3 and bare name, all %d documents" % len(ALL_DOCS),
                   "pairs": "all multisets of 2 over {bare,0,entity lines,+/-1,last+1} on %d documents" % len(pair_docs),
-                  "triples": "none (quick)" if ctx.quick else "all multisets of 3 over the same set on all documents (real run on 12 of them, should_skip only on the rest)",
+                  "triples": "none (quick)" if ctx.quick else "all multisets of 3 over the same set on all documents (real run on the 16 quick documents, should_skip only on the rest)",
                   "two_file_pairs": len(two_q) if ctx.quick else len(two),
                   "listfile_styles": list(LISTFILE_STYLES)}
 
